@@ -45,6 +45,11 @@ def touched_paths(L, res):
                     if e.call == "rename" and p == e.path2:
                         pass
                     out.setdefault(rel, set()).add(e.call)
+    # a path that existed neither before nor after the command (created and removed again by the command itself, e.g. the
+    # unfinished file a range-limited fix cleans up) has not been modified
+    if res.before is not None:
+        for rel in [r for r in out if r not in res.before and r not in res.after]:
+            del out[rel]
     return out
 
 
@@ -114,7 +119,10 @@ def violations(L, cmd, res, c_before=None, zero_nsec=None):
                 if not ok:
                     v.append(dict(kind="fix-wrote-unreported-path", cmd=cmd, path=rel, how=sorted(how)))
             elif k.startswith("parity:"):
-                pass    # judged per block below
+                # blocks are judged below; a parity file must never get SHORTER by a fix (it holds synced stripes)
+                b, a = res.before.get(rel), res.after.get(rel)
+                if b is not None and b[0] == "f" and (a is None or a[1] < b[1]):
+                    v.append(dict(kind="fix-shortened-parity-file", cmd=cmd, path=rel, before=b[1], after=None if a is None else a[1]))
             else:
                 v.append(dict(kind="fix-modified-%s" % k, cmd=cmd, path=rel, how=sorted(how)))
         # parity blocks written must be reported parity_fixed
